@@ -362,20 +362,13 @@ def ident_model(pos, name):
     return apply_ident(ident_base(), pos, name)
 
 
-IDENT_EXCLUDED = {
-    # grammar-inherent ambiguities (DESIGN §2): a property/project key spelled like the note keyword *is* a note
-    ('prop_key_table', 'note'), ('prop_key_table', 'Note'), ('project_key', 'note'), ('project_key', 'Note'),
-    ('prop_key_column', 'note'), ('prop_key_column', 'Note'),
-}
+IDENT_EXCLUDED = set()      # (none: keys spelled like a keyword are written quoted by the writer, which is what makes them keys)
 
 # Frozen table (written down once from the pinned grammar, never learnt at run time): positions where a
 # word that is also a grammar keyword cannot be written *bare* because the keyword alternative of the same
 # body wins or commits (error stop).  These names are written double-quoted only.
 BARE_EXCLUDED = {
     ('schema', 'note'), ('alias', 'note'),          # a group member spelled `note...` starts a Note element
-    ('prop_key_table', 'indexes'),
-    ('prop_key_column', 'ref'), ('prop_key_column', 'pk'), ('prop_key_column', 'null'), ('prop_key_column', 'unique'),
-    ('prop_key_column', 'default'),
 }
 
 IDENT_STYLES = [writer.Style(), writer.Style(quote='quoted', addr='bare'), writer.Style(addr='alias', case='upper', ref_form='block'),
